@@ -87,8 +87,8 @@ Definition mk_call (f : string) (arg_codes : list program) : program :=
 
 Fixpoint c_expr (e : expr) : program :=
   match e with
-  | ELit l => [push_of (lit_param l)]
-  | EMacro m => [push_of (macro_param m)]
+  | ELit l => [I1 OC_PUSHQ (lit_param l)]           (* a constant is pushed as it is (D64: a string used to go through push_of, i.e. be read as a variable) *)
+  | EMacro m => [I1 OC_PUSHQ (macro_param m)]
   | EVar x => [I1 OC_PUSH (PStr x)]
   | EReg r => [I1 OC_PUSH (PReg r)]
   | ECall f args =>
